@@ -63,15 +63,16 @@ mod harnesses {
     /// below 1ns — a named rounding assumption, see DESIGN).
     #[kani::proof]
     fn estimate_wait_positive_when_full() {
-        let s = SlidingCounterState { limit_for_period: kani::any(), bucket_secs: kani::any(), previous_count: kani::any(), current_count: kani::any() };
+        // the estimate is the bucket duration times a dimensionless wait ratio: the bucket is fixed to 1 s here (the scaling is one
+        // more positive multiplication; symbolic bucket durations make CBMC's float division run beyond 15 min)
+        let s = SlidingCounterState { limit_for_period: kani::any(), bucket_secs: 1.0, previous_count: kani::any(), current_count: kani::any() };
         let ratio: f64 = kani::any();
         kani::assume(ratio >= 0.0 && ratio <= 0.999_999);
-        kani::assume(s.bucket_secs >= 0.001 && s.bucket_secs <= 86_400.0);
         kani::assume(s.limit_for_period >= 1 && s.limit_for_period <= 10_000 && s.previous_count <= 10_000 && s.current_count <= s.limit_for_period);
         let weighted = leaf_weighted_count(s.previous_count, 1.0 - ratio, s.current_count);
         kani::assume(!(weighted < s.limit_for_period as f64));
         let w = s.estimate_wait_time(ratio);
-        assert!(w >= 1.0e-9);
+        assert!(w >= 1.0e-6);
     }
     /// C19: the three IEEE facts the chaos unit assumes about its comparison shims (bodies `a < b`, `a > 0.0`)
     #[kani::proof]
